@@ -74,11 +74,17 @@ def run_level(ctx, ss):
     }
     cfgs['deaths-on-coarser-step'] = lambda seed: ss.Sim(n_agents=150, diseases=ss.SIR(p_death=0.2), networks=ss.RandomNet(), dt=0.5, dur=8, rand_seed=seed, verbose=0,
                                                          demographics=[ss.Births(birth_rate=200), ss.Deaths(death_rate=120, unit='year', dt=1.0)])
+    # a population scale that is not a whole number: the reported series are the agent counts times the scale, and the balance holds for the scaled series
+    cfgs['scaled-2.5'] = lambda seed: ss.Sim(n_agents=80, diseases=ss.SIR(p_death=0.3), networks=ss.RandomNet(), demographics=[ss.Births(birth_rate=300), ss.Deaths(death_rate=150)],
+                                             dur=10, rand_seed=seed, verbose=0, pop_scale=2.5)
+    # every child of a mother who dies is requested to die from Pregnancy.finish_step, i.e. after the resolution phase of the step
+    cfgs['pregnancy-neonatal-certain'] = lambda seed: ss.Sim(n_agents=300, demographics=[ss.Pregnancy(fertility_rate=300, p_neonatal_death=ss.bernoulli(p=1.0)), ss.Deaths(death_rate=150)],
+                                                             dur=6, dt=0.25, rand_seed=seed, verbose=0)
     cfgs['copied-mid-run'] = lambda seed: ss.Sim(n_agents=60, diseases=[ss.SIR(p_death=0.3), ss.SIS()], networks=ss.RandomNet(),
                                                  demographics=[ss.Births(birth_rate=500), ss.Deaths(death_rate=100)], dur=12, rand_seed=seed, verbose=0)
     import pickle, copy as _copy
     for name, mk in cfgs.items():
-        for rep in range(ctx.n(1, 6)):
+        for rep in range(ctx.n(1, 6) + (3 if name == 'pregnancy-neonatal-certain' else 0)):
             seed = rng.randrange(1, 10**4)
             book = Book(name='book')
             sim = mk(seed)
@@ -100,8 +106,10 @@ def run_level(ctx, ss):
             rows = book.rows
             ctx.cov['max_n_uid'] = max(ctx.cov.get('max_n_uid', 0), rows[-1]['n_uid'])
             for a, b in zip(rows, rows[1:]):
-                created = b['n_uid'] - a['n_uid']
+                created = (b['n_uid'] - a['n_uid']) * float(sim.pars.pop_scale or 1.0)
                 ti = b['ti']
+                if abs(n_alive[ti] - b['alive_active'] * float(sim.pars.pop_scale or 1.0)) > 1e-9:
+                    ctx.violation(f'{name}: step {ti}: reported n_alive {n_alive[ti]} is not the number of living agents {b["alive_active"]} x pop_scale {sim.pars.pop_scale}', dict(config=name, seed=seed, ti=ti)); break
                 if n_alive[ti] != n_alive[ti - 1] + created - new_deaths[ti]:
                     w = dict(config=name, seed=seed, ti=ti, n_alive_prev=n_alive[ti - 1], created=created, new_deaths=new_deaths[ti], n_alive=n_alive[ti], late=b['late'])
                     # deaths requested after the resolution phase of the previous step (ti_dead < ti) are executed now but recorded nowhere
